@@ -704,7 +704,12 @@ pub fn many_keys_case(nkeys: usize, klen: usize, partial: bool, cfg: &Cfg, only_
     use cassadilia::Cas;
     let mut vs = Vec::new();
     let dir = util::fresh_dir("many");
-    let key = |i: usize| format!("k{:0>width$}", i, width = klen.max(7) - 1);
+    // (format widths are limited to 65535; the keys go up to 70,000 bytes)
+    let key = |i: usize| {
+        let digits = i.to_string();
+        let width = klen.max(7) - 1;
+        format!("k{}{digits}", "0".repeat(width.saturating_sub(digits.len())))
+    };
     {
         let cas = real::open_cas::<String>(&dir, &cfg.config()).expect("open");
         for i in 0..nkeys {
